@@ -201,7 +201,12 @@ def tcp_round(port, stream, cut, how, slow_handler=0.0):
         if not slow_handler:
             wait(lambda: len(proto._receive_buffer) == 0, 3.0)
         obs["buffer_after_close"] = 0 if slow_handler else len(proto._receive_buffer)
-        sock2 = client()
+        try:
+            sock2 = client()
+        except OSError as exc:      # nobody listens any more: that is the observation, not a failure of the harness
+            obs["reconnected"] = obs["reselected"] = False
+            obs["connect_error"] = repr(exc)
+            return obs
         obs["reconnected"] = wait(lambda: proto.connection_state.current.value == 2)
         sock2.sendall(frame_of(1, 0x52))
         got = recv_frames(sock2, 1)
